@@ -197,7 +197,9 @@ class C03(Check):
     theorems = ["Pox.C03.matches_iff_current", "Pox.C03.extract_ok_current", "Pox.C03.exact_iff_current", "Pox.C03.table_sorted_current",
                 "Pox.C03.exact_outranks_current", "Pox.C03.flowOk_current", "Pox.C03.lookup_spec_wire_current", "Pox.C03.lookup_spec_wire_literal_current",
                 "Pox.C03.miss_iff_wire_current", "Pox.C03.history_lookup_wire_current", "Pox.C03.history_lookup_sequence_wire", "Pox.C03.subsumes_iff_current",
-                "Pox.C03.flow_from_packet_current", "Pox.C03.flow_from_packet_exact_current", "Pox.C03.arp_fields_only_for_arp_current", "Pox.C03.extract_rarp_current",
+                "Pox.C03.flow_from_packet_current", "Pox.C03.flow_from_packet_exact_current",
+                "Pox.C03.history_lookup_wire_queries_current", "Pox.C03.history_lookup_wire_queries", "Pox.C03.history_queries_erase", "Pox.C03.query_between",
+                "Pox.C03.history_sorted_queries", "Pox.C03.query_reports", "Pox.C03.arp_fields_only_for_arp_current", "Pox.C03.extract_rarp_current",
                 "Pox.C03.frame_complete_regular", "Pox.C03.current_eq_full_regular", "Pox.C03.extract_ok_bytes_current", "Pox.C03.matches_iff_bytes_current",
                 "Pox.C03.lookup_spec_bytes_current", "Pox.C03.extract_tcp_options_defect",
                 "Pox.C03.matches_iff_repaired", "Pox.C03.extract_ok_repaired", "Pox.C03.lookup_spec_wire_repaired",
@@ -223,9 +225,10 @@ class C03(Check):
     ANCHORED = {"pox/openflow/libopenflow_01.py": {"ofp_match": ["from_packet", "get_nw_dst", "get_nw_src", "_normalize_wildcards", "_unwire_wildcards",
                                                                "_wire_wildcards", "pack", "is_wildcarded", "is_exact", "unpack", "matches_with_wildcards"]},
                 "pox/openflow/flow_table.py": {"TableEntry": ["effective_priority", "is_matched_by", "is_idle_timed_out", "is_hard_timed_out"],
-                                               "FlowTable": ["add_entry", "remove_entry", "matching_entries", "_remove_specific_entries",
+                                               "FlowTable": ["add_entry", "remove_entry", "matching_entries", "flow_stats", "aggregate_stats", "_remove_specific_entries",
                                                              "remove_expired_entries", "remove_matching_entries", "entry_for_packet"]}}
-    trusted_base = ["models Model/Match.lean, Model/FlowTable.lean, Model/MatchV.lean hand-written from ofp_match / FlowTable; tied by this correspondence run",
+    trusted_base = ["models Model/Match.lean, Model/FlowTable.lean, Model/FlowTableQ.lean (the calls that only read: a query returns the table it was given), Model/MatchV.lean "
+                    "hand-written from ofp_match / FlowTable; tied by this correspondence run",
                     "Spec/OF10Match.lean: hand transcription of OpenFlow 1.0 §3.4 (12-tuple, Figure 4 header parsing, Table 3, prefix wildcards, exact-match priority "
                     "read under the prerequisite rule: Spec.exactSig); its Python twin in harness/c03.py is cross-checked against it on every case",
                     "Spec/OF10Frame.lean: hand transcription of the frame formats (Ethernet II / 802.2 SNAP, 802.1Q tag type 0x8100 only, IPv4 flags / IHL, ARP, "
@@ -241,6 +244,10 @@ class C03(Check):
                    "hypotheses of matches_iff / history_lookup_wire at /repo HEAD: wildcarded dl_type/nw_proto fields are zero on the wire (D38), ToS values carry no ECN bits (D36), "
                    "ARP opcode <= 255 (D37), exact flows are IPv4 TCP/UDP/ICMP flows without any wildcard bit (D26); each excluded case is a listed finding with a `_defect` theorem, "
                    "and the `_v` theorems drop the hypothesis for the variant that has the corresponding repair",
+                   "read-only calls (flow / aggregate / table statistics through the switch or directly, matching_entries, len, iteration, printing, per-entry reports, "
+                   "check_for_overlapping_entry, port / desc / queue statistics, features, get-config, barrier, echo): the model treats them as no-ops on the table; WHAT they report "
+                   "(the set of entries the non-strict test selects, a count) is a correspondence-only observable — the oracle demands only that the table holds what it held and "
+                   "that every later lookup is the standard's",
                    "remove_expired_entries is modelled for any expiry predicate (theorems) and with the idle/hard rule on never-touched entries (driver); "
                    "what remove_matching_entries selects is C04's subject, here it is only mirrored"]
     design_ref = "DESIGN.md §5 C03, §6 D22 D26 D29, Appendix D.10"
@@ -252,7 +259,8 @@ class C03(Check):
                   "and every complete frame (matches_iff_current), extraction = Figure 4 (extract_ok_current; ARP fields only behind dl_type 0x0806: arp_fields_only_for_arp_current, "
                   "extract_rarp_current), after every history of add_entry / remove_entry / remove_matching_entries / remove_expired_entries and for every sequence of lookups the answer "
                   "is the best matching flow currently installed, a miss iff none matches (history_lookup_wire_current, history_lookup_sequence_wire, lookup_spec_wire_current, "
-                  "miss_iff_wire_current), exact entries stand before wildcarded ones and the code's exactness test is the standard's (exact_outranks_current, exact_iff_current). "
+                  "miss_iff_wire_current) — also when statistics requests and other read-only calls of the table / the switch are interleaved anywhere in the history "
+                  "(history_lookup_wire_queries_current, query_between: in the model they return the table they were given, which the correspondence checks after each such call), exact entries stand before wildcarded ones and the code's exactness test is the standard's (exact_outranks_current, exact_iff_current). "
                   "READING CLAIMED for 'exact match (has no wildcards)': the prerequisite rule — wildcard bits on fields that are ignored for lack of prerequisites do not count "
                   "(Spec.exactSig / IsBestSig; what the reference switch does and the code implements since D26); lookup_spec_wire_literal_current is the literal reading "
                   "(all 22 bits zero), proved for flows that wildcard no ignored field, on which the two readings coincide. "
@@ -272,9 +280,13 @@ class C03(Check):
                   "and lookups are compared on every case and held to the standard's 12-tuple of that description (all 2^10 wildcard combinations, prefix counters 0..63, byte-level sweeps of "
                   "IP flags / offsets / IHL / lengths / TCP option areas / EtherTypes / LLC-SNAP forms, tables to 40 entries, operation histories to 90 calls, packet->flow round trips). "
                   "Incomplete frames (a header the type fields promise is cut short) are compared model-vs-code only, on the library's description.")
-    rule = ("case = one frame x a batch of transmitted/local matches | a table of <=40 flow entries x frames | a history of <=90 table operations with lookups in between | sequences of lookups on one unchanged table (frames differing in exactly one of the 12 fields or in fragmentation, both orders, A-B-A triples, entries discriminating on that field; each answer also compared with a fresh copy of the table) | "
+    rule = ("case = one frame x a batch of transmitted/local matches | a table of <=40 flow entries x frames | a history of <=90 table operations with lookups in between "
+            "(on a bare FlowTable or on the table of a SoftwareSwitch with a connection; read-only calls between any two steps: OFPST_FLOW / AGGREGATE / TABLE / PORT / DESC / QUEUE requests "
+            "from their bytes with the replies read from the wire, flow_stats / aggregate_stats / matching_entries filtered, unfiltered and by out_port, len, iteration, printing, "
+            "check_for_overlapping_entry, features / get-config / barrier / echo; on a switch every lookup also through rx_packet) | sequences of lookups on one unchanged table (frames differing in exactly one of the 12 fields or in fragmentation, both orders, A-B-A triples, entries discriminating on that field; each answer also compared with a fresh copy of the table) | "
             "a packet->from_packet->pack->unpack->lookup round trip | subsumption pairs; corpus = all 1024 flag combinations x prefix counters x at/near values on 9 fixed frames + "
-            "prefix sweeps 0..63 + defect witnesses + 8 fixed histories; non-trivial = a batch with both outcomes / a table or history with a hit / a round trip of a frame with L3 or VLAN")
+            "prefix sweeps 0..63 + defect witnesses + 8 fixed histories + one sandwich history per read-only call (lookups / the call / lookups / add / remove / strict delete / expiry, "
+            "exact entry with a low priority field in front of high wildcarded ones); non-trivial = a batch with both outcomes / a table or history with a hit / a round trip of a frame with L3 or VLAN")
     coverage_cases = 200
 
     # ---------------------------------------------------------------- real code
@@ -538,15 +550,139 @@ class C03(Check):
         elif form % 3 == 1: m.unpack(raw=bytearray(b), offset=0, flow_mod=True)
         else: m.unpack(b"\xff\xff\xff" + b, 3, True)
         return m
-    def _entry(self, prio, m, idle, hard, now, form):
+    def _entry(self, prio, m, idle, hard, now, form, cookie=0, out=None):
+        """cookie: carried into flow statistics (identifies the entry in a reply read from the wire); out: port of an output action"""
         prio = self._int(prio)
-        if form % 2: return self.TableEntry(priority=prio, match=m, actions=[], idle_timeout=idle, hard_timeout=hard, now=now)
-        return self.TableEntry(prio, 0, idle, hard, 0, m, [], None, now)
+        acts = [] if out is None else [self.of.ofp_action_output(port=out)]
+        if form % 2: return self.TableEntry(priority=prio, cookie=cookie, match=m, actions=acts, idle_timeout=idle, hard_timeout=hard, now=now)
+        return self.TableEntry(prio, cookie, idle, hard, 0, m, acts, None, now)
     def _lookup(self, ft, e, port, form):
         return ft.entry_for_packet(e, port) if form % 2 else ft.entry_for_packet(packet=e, in_port=port)
     def _poke(self, m):
         """what applications do with match objects in between: hash (which locks the object), compare, print"""
         hash(m); m == m; str(m); m.show()
+
+    # -- calls that only READ (HARDENING 10: the neighbouring feature is part of the input): statistics through the switch (requests built
+    #    byte by byte, replies packed at send time and read from their bytes) or directly on the FlowTable, filtered and unfiltered,
+    #    len / iteration / printing / per-entry reports, requests that do not concern the table.  Op shapes (tableops histories):
+    #      ["q", "flow_stats" | "aggregate", "direct", ref, out_port]      ref: "all" (a fresh ofp_match()) | hex40 | "@j" (entry j's own match object)
+    #      ["q", "matching", "direct", ref, out_port]                      matching_entries(strict=False)
+    #      ["q", "len" | "entries" | "show", "direct"]   ["q", "overlap", "direct", hex40, priority]
+    #      ["q", "flow_stats" | "aggregate", "switch", ref, out_port, table_id]   ["q", "table_stats", "switch"]   ["q", "other", "switch", which]
+    class _Conn(object):
+        """the switch's connection: what is sent is encoded at send time, as a socket would"""
+        def __init__(self): self.sent, self.handler = [], None
+        def set_message_handler(self, h): self.handler = h
+        def send(self, msg): self.sent.append(bytes(msg) if isinstance(msg, (bytes, bytearray)) else msg.pack())
+
+    ALLW = [0x3fffff] + [0] * 12
+
+    def _stats_exchange(self, sw, conn, stype, body, xid):
+        """an OFPST request from its bytes into the switch; -> bodies of the replies (bytes), in order"""
+        of = self.of
+        raw = struct.pack("!BBHL", 1, 16, 12 + len(body), xid) + struct.pack("!HH", stype, 0) + body
+        m = of.ofp_stats_request(); m.unpack(raw)
+        start = len(conn.sent)
+        conn.handler(conn, m)
+        out = []
+        for r in conn.sent[start:]:
+            if len(r) >= 12 and r[1] == 17 and be(r[4:8]) == xid and be(r[8:10]) == stype: out.append(r[12:be(r[2:4])])
+        return out
+
+    def _query(self, ft, sw, conn, ents, idx, op, form, now):
+        """carry out one read-only call; -> its canonical answer (what the model's `TableOps.answer` is compared with)"""
+        of = self.of
+        what, via = op[1], op[2]
+        canon_ids = lambda es: sorted((idx.get(id(e), "foreign-object") for e in es), key=lambda x: (isinstance(x, str), x))
+        def mobj(ref):
+            if ref == "all": return of.ofp_match()
+            if ref.startswith("@"): return ents[int(ref[1:])].match
+            return self._unpack(ref, form)
+        if via == "direct":
+            if what == "flow_stats":
+                m = mobj(op[3])
+                r = ft.flow_stats(m, op[4], now) if form % 2 else ft.flow_stats(match=m, out_port=op[4], now=now)
+                for x in r: x.pack()
+                return sorted(int(x.cookie) for x in r)
+            if what == "aggregate":
+                m = mobj(op[3])
+                r = ft.aggregate_stats(m, op[4]) if form % 2 else ft.aggregate_stats(match=m, out_port=op[4])
+                r.pack()
+                return int(r.flow_count)
+            if what == "matching":
+                m = mobj(op[3])
+                r = ft.matching_entries(m, 0, False, op[4]) if form % 2 else ft.matching_entries(match=m, strict=False, out_port=op[4])
+                return canon_ids(r)
+            if what == "len":
+                n = len(ft); bool(ft)
+                return n
+            if what == "entries":
+                a = [idx.get(id(e), "foreign-object") for e in ft.entries]
+                list(ft.entries); tuple(ft.entries); sorted(ft.entries, key=lambda e: e.priority); list(reversed(ft.entries))
+                for e in list(ft.entries): (e in ft.entries); ft.entries.index(e); ft.entries.count(e)
+                if len(ft): ft.entries[0]; ft.entries[-1]; ft.entries[:]
+                return a
+            if what == "show":
+                for e in list(ft.entries):
+                    str(e); repr(e); e.show(); e.effective_priority; e.is_expired(now); e.is_idle_timed_out(now); e.is_hard_timed_out(now)
+                    e.flow_stats(now).pack(); e.to_flow_mod().pack(); e.to_flow_removed(now, reason=0).pack()
+                    e.match.show(); e.match.pack(); e.match.is_exact; e.match.is_wildcarded; hash(e.match); e.match == of.ofp_match()
+                    e.is_matched_by(of.ofp_match()); e.is_matched_by(e.match, e.priority, True); e.match.get_nw_src(); e.match.get_nw_dst()
+                return None
+            if what == "overlap":
+                ft.check_for_overlapping_entry(self._entry(op[4], self._unpack(op[3], form), 0, 0, now, form))
+                return None
+            raise ValueError(what)
+        if sw is None: raise ValueError("switch query on a bare table")
+        xid = 0x51000000 + form % 0x10000
+        if what in ("flow_stats", "aggregate"):
+            rec = self.ALLW if op[3] == "all" else unpack_rec(bytes.fromhex(op[3]))
+            body = pack_rec(rec) + struct.pack("!BBH", op[5], 0, 0xffff if op[4] is None else op[4])
+            rs = self._stats_exchange(sw, conn, 1 if what == "flow_stats" else 2, body, xid)
+            if not rs: return "no-reply"
+            if what == "aggregate": return be(rs[0][16:20]) if len(rs[0]) >= 24 else "short-reply"
+            got = []
+            for b in rs:
+                o = 0
+                while o + 88 <= len(b):
+                    ln = be(b[o:o + 2])
+                    if ln < 88: return "short-entry"
+                    got.append(be(b[o + 64:o + 72])); o += ln
+            return sorted(got)
+        if what == "table_stats":
+            rs = self._stats_exchange(sw, conn, 3, b"", xid)
+            return be(rs[0][44:48]) if rs and len(rs[0]) >= 64 else "no-reply"
+        if what == "other":
+            w = op[3]
+            if w.startswith("port"):
+                self._stats_exchange(sw, conn, 4, struct.pack("!H6x", {"port_all": 0xffff, "port_1": 1, "port_77": 77}[w]), xid)
+            elif w == "desc": self._stats_exchange(sw, conn, 0, b"", xid)
+            elif w == "queue": self._stats_exchange(sw, conn, 5, struct.pack("!HxxL", 0xfffc, 0xffffffff), xid)
+            else:
+                cls = {"features": of.ofp_features_request, "config": of.ofp_get_config_request, "barrier": of.ofp_barrier_request, "echo": of.ofp_echo_request}[w]
+                raw = cls(xid=xid).pack()
+                m = cls(); m.unpack(raw); conn.handler(conn, m)
+            return None
+        raise ValueError(what)
+
+    def _q_model(self, case, op):
+        """the model's form of a read-only op (Drivers/C03.lean `"q"`)"""
+        what = op[1]
+        if what in ("flow_stats", "aggregate", "matching"):
+            if op[2] == "switch" and op[5] not in (0xff, 0): return ["q", "other"]          # another table: no flows
+            ref = op[3]
+            while ref.startswith("@"): ref = [o for o in case["ops"] if o[0] == "add" and o[1] == int(ref[1:])][0][3]
+            return ["q", "select", self.ALLW if ref == "all" else unpack_rec(bytes.fromhex(ref)), op[4]]
+        return ["q", "other"] if what == "other" else ["q", "all"]
+
+    @staticmethod
+    def _q_answer(op, sel):
+        """canonical answer from the entries the model's query reports on (ids, table order)"""
+        what = op[1]
+        if what in ("flow_stats", "matching"): return sorted(sel)
+        if what in ("aggregate", "len", "table_stats"): return len(sel)
+        if what == "entries": return list(sel)
+        return None
 
     def impl(self, case):
         k = case["kind"]
@@ -650,20 +786,31 @@ class C03(Check):
                     "hit": 1 if m2.matches_with_wildcards(pm, consider_other_wildcards=False) else 0, "exact": 1 if m2.is_exact else 0}
         if k == "tableops":
             cv = self._cv(case)
-            ft = self.FlowTable()
+            sw = conn = None
+            if case.get("sw"):                  # the table of a switch with a connection: statistics requests go through its handlers
+                sw = self.SoftwareSwitch(dpid=1, name="c03", ports=4); conn = self._Conn(); sw.set_connection(conn)
+                ft = sw.table
+            else: ft = self.FlowTable()
             ents, idx, trace, looks, pk = {}, {}, [], [], {}
             ids = lambda: [idx.get(id(te), "foreign-object") for te in ft.entries]
+            clock = 1.0
             for n, op in enumerate(case["ops"]):
                 raised = 0
                 try:
                     if op[0] == "add":
-                        _, i, prio, w, idle, hard, now = op
+                        i, prio, w, idle, hard, now = op[1:7]
+                        clock = max(clock, now / 1000.0)
                         m = ents[int(w[1:])].match if w.startswith("@") else self._unpack(w, cv + n)      # "@j": the very match object of entry j again
                         if (cv + n) % 5 == 0: self._poke(m)
-                        te = self._entry(prio, m, idle, hard, now / 1000.0, cv + n)
+                        te = self._entry(prio, m, idle, hard, now / 1000.0, cv + n, cookie=i, out=op[7] if len(op) > 7 else None)
                         idx[id(te)] = i
                         ents[i] = te
                         ft.add_entry(te)
+                    elif op[0] == "q":
+                        try: ans, qr = self._query(ft, sw, conn, ents, idx, op, cv + n, clock), 0
+                        except Exception as ex: ans, qr = None, type(ex).__name__
+                        trace.append(["q", qr, ids(), ans])
+                        continue
                     elif op[0] == "remove":
                         ft.remove_entry(ents[op[1]]) if (cv + n) % 2 else ft.remove_entry(entry=ents[op[1]])
                     elif op[0] == "rm_match":
@@ -671,6 +818,7 @@ class C03(Check):
                         if (cv + n) % 2: ft.remove_matching_entries(m, self._int(op[2]), bool(op[3]))
                         else: ft.remove_matching_entries(match=m, priority=self._int(op[2]), strict=bool(op[3]))
                     elif op[0] == "expire":
+                        clock = max(clock, op[1] / 1000.0)
                         ft.remove_expired_entries(op[1] / 1000.0) if (cv + n) % 2 else ft.remove_expired_entries(now=op[1] / 1000.0)
                     elif op[0] == "lookup":
                         if op[1] not in pk: pk[op[1]] = self.parse(op[1])
@@ -682,6 +830,14 @@ class C03(Check):
                                       "codematch": {str(i): 1 if ents[i].match.matches_with_wildcards(pm, consider_other_wildcards=False) else 0 for i in present}})
                         te = self._lookup(ft, e, op[2], cv + n)
                         trace.append(["l", None if te is None else idx.get(id(te), "foreign-object")])
+                        if sw is not None:      # the same frame through the switch's data path: which entry's counter moved
+                            before = {i: x.packet_count for i, x in ents.items()}
+                            try:
+                                sw.rx_packet(e, op[2], packet_data=bytes.fromhex(op[1]))
+                                hit = [i for i, x in ents.items() if x.packet_count != before[i]]
+                                looks[-1]["rx"] = [hit[0] if len(hit) == 1 else (None if not hit else "many")]
+                            except Exception as ex:
+                                looks[-1]["rx"] = ["raised " + type(ex).__name__]
                         continue
                     else: raise ValueError(op[0])
                 except Exception as ex:
@@ -745,7 +901,8 @@ class C03(Check):
                 if op[0] == "add":
                     w = op[3]
                     while w.startswith("@"): w = [o for o in case["ops"] if o[0] == "add" and o[1] == int(w[1:])][0][3]
-                    ops.append(["add", op[1], op[2], unpack_rec(bytes.fromhex(w)), op[4], op[5], op[6]])
+                    ops.append(["add", op[1], op[2], unpack_rec(bytes.fromhex(w)), op[4], op[5], op[6], op[7] if len(op) > 7 else None])
+                elif op[0] == "q": ops.append(self._q_model(case, op))
                 elif op[0] == "rm_match": ops.append(["rm_match", unpack_rec(bytes.fromhex(op[1])), op[2], bool(op[3])])
                 elif op[0] == "lookup": ops.append(["lookup", self.mview(op[1]), op[2]])
                 else: ops.append(list(op))
@@ -788,7 +945,7 @@ class C03(Check):
             if case.get("via_switch"): v["rx"] = resp["lookups"]
             return v
         if k == "tableops":
-            return {"trace": resp["trace"]}
+            return {"trace": [["q", t[1], t[2], self._q_answer(op, t[3])] if t[0] == "q" else t for op, t in zip(case["ops"], resp["trace"])]}
         if k == "selfflow":
             return {kk: resp[kk] for kk in ("m", "wire", "m2w", "hit", "exact", "spec")}
 
@@ -887,6 +1044,13 @@ class C03(Check):
             timers = {op[1]: (op[4], op[5], op[6]) for op in case["ops"] if op[0] == "add"}
             prev = []
             for oi, (op, t) in enumerate(zip(case["ops"], obs["trace"])):
+                if t[0] == "q":
+                    # a call that only reads: the table holds what it held (what it REPORTS is not this property's subject; the lookups
+                    # that follow are held to the standard below, against the entries the table is known to hold)
+                    if sorted(map(str, t[2])) != sorted(map(str, prev)):
+                        return "table:op %d %s (%s, read-only) left %s, the table held %s why=contents-after-query" % (oi, op[1], op[2], t[2], prev)
+                    prev = t[2]
+                    continue
                 if t[0] != "t": continue
                 raised, now_ids = t[1], t[2]
                 if op[0] == "add":
@@ -927,6 +1091,8 @@ class C03(Check):
                 present = {i: flows[i] for i in lk["present"]}
                 v = self._lookup_verdict(present, got, lk["phdr"], op[2], lambda i: lk["codematch"][str(i)], "op %d" % oi)
                 if v: return v
+                if "rx" in lk and lk["rx"][0] != got:
+                    return "lookup:op %d rx_packet used entry %s, entry_for_packet %s why=rx-differs-from-lookup" % (oi, lk["rx"][0], got)
             return None
         return None
 
@@ -1004,7 +1170,8 @@ class C03(Check):
         if k == "tableops":
             for i in range(len(case["ops"])):
                 op = case["ops"][i]
-                if op[0] == "add" and any((o[0] == "remove" and o[1] == op[1]) or (o[0] == "add" and o[3] == "@%d" % op[1]) for o in case["ops"]):
+                if op[0] == "add" and any((o[0] == "remove" and o[1] == op[1]) or (o[0] == "add" and o[3] == "@%d" % op[1]) or
+                                          (o[0] == "q" and len(o) > 3 and o[3] == "@%d" % op[1]) for o in case["ops"]):
                     continue                                                                    # keep ids that are referred to
                 c = dict(case); c["ops"] = case["ops"][:i] + case["ops"][i + 1:]
                 if any(o[0] == "lookup" for o in c["ops"]): yield c
@@ -1200,6 +1367,7 @@ class C03(Check):
         cases += self.table_witnesses()
         cases += list(self.lookup_seq_cases(rng))
         cases += self.sandwich_cases()
+        cases += self.query_sandwich_cases()
         cases += self.sweep_pairs(rng)
         cases += self.byte_cases(rng)
         for i in range(8):
@@ -1320,6 +1488,8 @@ class C03(Check):
             for c in self.lookup_seq_cases(rng, per=2): yield c
         for i in range(150 if tier == "quick" else 2500):
             yield self.tableops_case(rng, pool, nops=rng.choice([3, 8, 20, 60, 90]))
+        for i in range(90 if tier == "quick" else 1500):    # the same with read-only calls between the steps, half of them on a switch's table
+            yield self.tableops_case(rng, pool, nops=rng.choice([8, 20, 40, 90]), queries=rng.choice([0.15, 0.3, 0.5]), sw=(i % 2 == 0))
         for c in self.local_and_subsume(rng, pool, 40 if tier == "quick" else 1200): yield c
 
     def search_cases(self, rng, tier):
@@ -1701,6 +1871,62 @@ class C03(Check):
                 out.append({"kind": "tableops", "ops": ops, "tag": "sweep %s %d" % (bname, mask)})
         return out
 
+    def query_catalogue(self, refs, sw, alias=None):
+        """every read-only entry point of the table / its switch x the argument shapes that select differently: unfiltered ("all"), filtered
+        by the transmitted matches `refs`, by an entry's own match object (`alias` = its id), with and without an out_port filter, every
+        table id; sw: also the requests that go through the switch's handlers"""
+        out = []
+        direct_refs = ["all"] + list(refs) + (["@%d" % alias] if alias is not None else [])
+        for what in ("flow_stats", "aggregate"):
+            for ref in direct_refs:
+                for outp in (None, 3):
+                    out.append(["q", what, "direct", ref, outp])
+        for ref in direct_refs[:2]:
+            for outp in (None, 3):
+                out.append(["q", "matching", "direct", ref, outp])
+        out += [["q", "len", "direct"], ["q", "entries", "direct"], ["q", "show", "direct"]]
+        for ref in refs[:1]: out.append(["q", "overlap", "direct", ref, 30000])
+        if sw:
+            for what in ("flow_stats", "aggregate"):
+                for ref, outp, tid in [("all", None, 0xff), ("all", None, 0), ("all", 3, 0xff), ("all", None, 5)] + [(r, None, (0xff, 0)[i % 2]) for i, r in enumerate(refs)]:
+                    out.append(["q", what, "switch", ref, outp, tid])
+            out.append(["q", "table_stats", "switch"])
+            for w in ("port_all", "port_1", "port_77", "desc", "queue", "features", "config", "barrier", "echo"):
+                out.append(["q", "other", "switch", w])
+        return out
+
+    def query_sandwich_cases(self):
+        """lookup / ONE read-only call / the same lookups again / a table modification / lookups — for every call of `query_catalogue`, on a
+        bare table and on a switch's table.  The entries are chosen so that any disturbance of the table a read-only call could cause
+        shows in a later lookup: an exact entry with a LOW priority field in front of wildcarded ones with high fields, two wildcarded
+        entries of equal priority, a non-matching entry with the highest field, a catch-all at the bottom; the modifications that follow
+        (an add that must land in front, a remove, a strict delete, an expiry) rely on the table's order as well."""
+        import random
+        rng = random.Random(17)
+        out = []
+        for bname in ("tcp", "vlan_udp", "icmp"):
+            d = self.SEQ_BASES[bname]; port = 2
+            dg = self.seq_variants(d, TP_SRC, rng)[0]                 # G: the same flow from another source port / ICMP type — the exact entry does not match it
+            F, G = self.build_frame(d), self.build_frame(dg)
+            ph, wf, h = self.headers_of(F, port)
+            hx = lambda fields, **kw: pack_rec(self.only_field_rec(h, fields, **kw)).hex()
+            catch, exact = hx([]), pack_rec([0] + list(h)).hex()
+            whi, wmid, wmid2, wtop = hx([DL_TYPE, NW_DST]), hx([IN_PORT]), hx([DL_DST]), hx([TP_DST])
+            rn = self.only_field_rec(h, [DL_SRC]); rn[DL_SRC] = (rn[DL_SRC] + 1) & FIELD_MAX[DL_SRC]
+            LF, LG = ["lookup", F, port], ["lookup", G, port]
+            for sw in (False, True):
+                for q in self.query_catalogue([whi, exact, wmid], sw, alias=1):
+                    if sw and q[2] == "direct" and q[1] not in ("flow_stats", "aggregate", "len"): continue      # the direct calls on a switch's table: a sample
+                    if not sw and q[2] == "switch": continue
+                    ops = [["add", 0, 1, catch, 0, 0, 1000, 1], ["add", 1, 100, exact, 0, 0, 1000, 2], ["add", 2, 40000, whi, 0, 2, 1000, 3], LF, LG, q, LF, LG,
+                           ["add", 3, 30000, wmid, 0, 0, 1000, 4], ["add", 4, 30000, wmid2, 0, 0, 1000, 3], ["add", 5, 50000, pack_rec(rn).hex(), 0, 0, 1000, 2], q, LF, LG,
+                           ["add", 6, 50000, wtop, 0, 0, 1000, 4], LF, LG, q, ["remove", 6], LG, LF, q, ["rm_match", exact, 100, True], LF, q,
+                           ["expire", 3125], LF, LG, q, ["add", 7, 7, "@1", 0, 0, 3125, 2], LF, LG]
+                    c = {"kind": "tableops", "ops": ops, "tag": "read-only %s %s" % (bname, " ".join(str(x) for x in q[1:3]))}
+                    if sw: c["sw"] = True
+                    out.append(c)
+        return out
+
     def sweep_pairs(self, rng):
         """every IP protocol number, ICMP types/codes, EtherTypes around the 802.3 cutoff and around the tags, ARP opcodes — a frame each,
         against matches on that very field (exact, off by one, wildcarded)"""
@@ -1734,7 +1960,7 @@ class C03(Check):
             out += case(d, [PROTO, NW_SRC])
         return out
 
-    def tableops_case(self, rng, pool, nops):
+    def tableops_case(self, rng, pool, nops, queries=0.0, sw=False):
         """a history on one FlowTable: adds (clustered priorities, many equal: the insertion position among equals is observable),
         remove_entry of present and absent objects, remove_matching_entries (non-strict with broad matches; strict with a copy of
         an installed match at the same / another priority), remove_expired_entries at an advancing clock, lookups in between.
@@ -1764,12 +1990,14 @@ class C03(Check):
             if x < 0.5 or not installed:
                 if len(installed) >= 40: continue
                 p = rng.choice(prios) if rng.random() < 0.85 else rng.choice([rng.randint(0, 0xffff), 0x7fff, 0x8000, 255, 256, 257])
+                idle = 0 if sw else rng.choice([0, 0, 1, 5])     # a switch touches the entries it uses: the idle rule on never-touched entries does not apply there
+                outp = rng.choice([None, 1, 3, 3]) if queries else None
                 if everadded and rng.random() < 0.12:           # the very match object of an earlier entry again (aliasing)
                     j = rng.choice(everadded); r = allrecs[j]
-                    ops.append(["add", nid, p, "@%d" % j, rng.choice([0, 0, 1, 5]), rng.choice([0, 0, 2, 10]), now])
+                    ops.append(["add", nid, p, "@%d" % j, idle, rng.choice([0, 0, 2, 10]), now] + ([outp] if queries else []))
                 else:
                     r = flow()
-                    ops.append(["add", nid, p, pack_rec(r).hex(), rng.choice([0, 0, 1, 5]), rng.choice([0, 0, 2, 10]), now])
+                    ops.append(["add", nid, p, pack_rec(r).hex(), idle, rng.choice([0, 0, 2, 10]), now] + ([outp] if queries else []))
                 allrecs[nid] = r
                 installed[nid] = (p, r); everadded.append(nid); nid += 1
             elif x < 0.58:
@@ -1794,9 +2022,16 @@ class C03(Check):
             else:
                 fr, port, ph, h = rng.choice(frames)
                 ops.append(["lookup", fr, port])
+            if queries and rng.random() < queries:          # a call that only reads, between any two steps
+                refs = [pack_rec(installed[i][1]).hex() for i in rng.sample(sorted(installed), min(2, len(installed)))]
+                fr, port, ph, h = rng.choice(frames)
+                refs.append(pack_rec(self.near_rec(rng, h, ph, [f for f in FLAG_FIELDS if rng.random() < 0.8], rng.choice([32, 32, 24, 8]), rng.choice([32, 32, 24]))).hex())
+                ops.append(rng.choice(self.query_catalogue(refs, sw, alias=rng.choice(everadded) if everadded else None)))
             if rng.random() < 0.3: now += rng.choice([125, 250, 1000])
         ops.append(["lookup", frames[0][0], frames[0][1]])
-        return {"kind": "tableops", "ops": ops}
+        c = {"kind": "tableops", "ops": ops}
+        if sw: c["sw"] = True
+        return c
 
     def local_and_subsume(self, rng, pool, n):
         for _ in range(n):
